@@ -7,21 +7,17 @@ From C05 Require Import Gen Model Proofs.
 Import ListNotations.
 Local Open Scope Z_scope.
 
-(* FULL STRENGTH ([rule_ok_full]: labels unique per function, no goto leaving a defer block) is FALSE for the
-   unchanged analyzer: `::l:: defer goto l end` is accepted *)
+(* FULL STRENGTH ([rule_ok_full] demands labels unique per function) is FALSE for the unchanged analyzer:
+   `do ::l:: end ::l::` is accepted (Lua 5.4's label rule) *)
 Theorem C05_analyzer_sound_refuted : ~ analyzer_sound_full.
 Proof. exact analyzer_sound_refuted. Qed.
 Print Assumptions C05_analyzer_sound_refuted.
 
-(* the strongest true restriction: every rule except the two label clauses below (all programs, any depth);
-   labels: no label repeats a VISIBLE label (Lua 5.4's rule), no goto crosses an executed / skipped defer *)
+(* the strongest true restriction: every rule, with `no label repeats a VISIBLE label` (Lua 5.4's rule) in place
+   of `unique per function`; gotos: no goto crosses an executed / skipped defer nor leaves a defer block *)
 Theorem C05_analyzer_sound_partial : forall p, analyzer_ok p = true -> rule_ok p = true.
 Proof. exact analyzer_sound_partial. Qed.
 Print Assumptions C05_analyzer_sound_partial.
-
-Theorem C05_labels_goto_defer_sound_refuted : ~ labels_sound_full.
-Proof. exact labels_sound_refuted. Qed.
-Print Assumptions C05_labels_goto_defer_sound_refuted.
 
 (* `do ::l:: end ::l::` : a label repeated in one function is accepted when the first one is not visible *)
 Theorem C05_labels_unique_per_function_refuted : ~ (forall p, off_labels p = [] -> rule_labels_unique p = true).
@@ -37,9 +33,10 @@ Theorem C05_names_sound : forall p, off_names p = [] -> rule_names p = true.
 Proof. exact names_sound_thm. Qed.
 Print Assumptions C05_names_sound.
 
-Theorem C05_labels_goto_defer_sound_partial : forall p, off_labels p = [] -> rule_labels p = true.
+(* goto / defer at full strength; labels: the visible-label rule *)
+Theorem C05_labels_goto_defer_sound : forall p, off_labels p = [] -> rule_labels p = true /\ rule_goto_stays_in_defer p = true.
 Proof. exact labels_sound_thm. Qed.
-Print Assumptions C05_labels_goto_defer_sound_partial.
+Print Assumptions C05_labels_goto_defer_sound.
 
 Theorem C05_switch_case_values_sound : forall p, off_switch p = [] -> rule_switch p = true.
 Proof. exact switch_sound_thm. Qed.
